@@ -83,7 +83,7 @@ Print Assumptions C04_break_continue_innermost.
 Theorem C04_break_ends_loop :
   forall f body t,
     mblock (mexec repaired f) body = Some (t, Some (RtErr TEndOfIteration)) ->
-    (forall n, mexec repaired (S f) (LoopCond (S n) body) = Some (t, None)) /\
+    (forall n fail, mexec repaired (S f) (LoopCond (S n) fail body) = Some (t, None)) /\
     (forall x xs, mexec repaired (S f) (LoopList (x :: xs) body) = Some (EvIter x :: t, None)).
 Proof. exact break_ends_loop. Qed.
 Print Assumptions C04_break_ends_loop.
@@ -91,11 +91,28 @@ Print Assumptions C04_break_ends_loop.
 Theorem C04_continue_next_round :
   forall f body t,
     mblock (mexec repaired f) body = Some (t, Some (RtErr TContinueIteration)) ->
-    (forall n, mexec repaired (S f) (LoopCond (S n) body) = mpre t (mexec repaired (S f) (LoopCond n body))) /\
+    (forall n fail, mexec repaired (S f) (LoopCond (S n) fail body)
+                    = mpre t (mexec repaired (S f) (LoopCond n fail body))) /\
     (forall x xs, mexec repaired (S f) (LoopList (x :: xs) body)
                   = mpre (EvIter x :: t) (mexec repaired (S f) (LoopList xs body))).
 Proof. exact continue_next_round. Qed.
 Print Assumptions C04_continue_next_round.
+
+(* if / elif: a guard that raises ends the statement with that error at once (only the guard's
+   own evaluation is logged: no later guard, no branch, no else); a false guard hands over *)
+Theorem C04_failing_guard_ends_if :
+  forall f n k b brs els,
+    mexec repaired (S f) (If ((GEval n (GFail k), b) :: brs) els)
+    = Some ([EvMark n], Some (errval_of k)).
+Proof. exact failing_guard_ends_if. Qed.
+Print Assumptions C04_failing_guard_ends_if.
+
+Theorem C04_false_guard_next_clause :
+  forall f g t b brs els,
+    mguard g = (t, false, None) ->
+    mexec repaired (S f) (If ((g, b) :: brs) els) = mpre t (mexec repaired (S f) (If brs els)).
+Proof. exact false_guard_next_clause. Qed.
+Print Assumptions C04_false_guard_next_clause.
 
 (* return leaves the innermost function with its value, and only that function *)
 Theorem C04_return_leaves_innermost_function :
@@ -163,7 +180,7 @@ Print Assumptions C04_unchanged_break_caught_refuted.
 
 (* F07  c := 2 ; for c > 0 { c := c - 1 ; mark(1) ; break } ; mark(7) : "End of iteration" leaks *)
 Theorem C04_unchanged_break_in_condition_loop_refuted :
-  let p := [LoopCond 2 [Mark 1; Break]; Mark 7] in
+  let p := [LoopCond 2 None [Mark 1; Break]; Mark 7] in
   decode (mprog unchanged 8 p) = Some ([EvMark 1], Broke) /\
   sprog 8 p = Some ([EvMark 1; EvMark 7], Normal).
 Proof. vm_compute. split; reflexivity. Qed.
@@ -206,7 +223,7 @@ Example C04_example :
                 ([EUser 3; EUser 2], BAs, [Mark 2; Break; Mark 97]);
                 ([], BNone, [Mark 96]) ]
               (Some [Mark 95]) (Some [Mark 3]) ];
-      LoopCond 2 [If [(false, [Mark 94]); (true, [Continue])] (Some [Mark 93]); Mark 92];
+      LoopCond 2 None [If [(GBool false, [Mark 94]); (GBool true, [Continue])] (Some [Mark 93]); Mark 92];
       FuncCall [LoopRange 5 1 (-2) [Try [Return 7] [([], BNone, [Mark 91])] None (Some [Mark 4])]; Mark 90];
       LoopMap [[98%N]; [97%N; 48%N]; [97%N]] [Try [Mark 5] [] (Some [Mark 6]) None] ] in
   decode (mprog repaired 8 p)
@@ -215,6 +232,30 @@ Example C04_example :
            EvKey [97%N]; EvMark 5; EvMark 6; EvKey [97%N; 48%N]; EvMark 5; EvMark 6;
            EvKey [98%N]; EvMark 5; EvMark 6], Normal)
   /\ sprog 8 p = decode (mprog repaired 8 p).
+Proof. vm_compute. split; reflexivity. Qed.
+
+(* a guard that raises: the second guard fails, so neither the third guard nor the else runs;
+   the enclosing try handles the error; a failing loop condition and a failing iterated
+   expression end their loops with the error *)
+Example C04_example_failing_guards :
+  let p :=
+    [ Try [If [(GEval 1 GFalse, [Mark 90]); (GEval 2 (GFail (KUser 1)), [Mark 91]); (GEval 3 GTrue, [Mark 92])]
+              (Some [Mark 93]); Mark 94]
+          [([EUser 1], BAs, [Mark 4])] None None;
+      Try [LoopCond 1 (Some (6, KRuntime)) [Mark 5]] [([], BIdent, [])] None None;
+      LoopSrc 7 (KUser 2) [Mark 95]; Mark 96 ] in
+  decode (mprog repaired 8 p)
+  = Some ([EvMark 1; EvMark 2; EvCaught (EUser 1); EvMark 4;
+           EvMark 5; EvMark 6; EvCaught EUnknownConstruct; EvMark 7], Raised (EUser 2))
+  /\ sprog 8 p = decode (mprog repaired 8 p).
+Proof. vm_compute. split; reflexivity. Qed.
+
+(* the regression that variant switch v_if_guard_error_overwritten models (not a behaviour of
+   the code as found): the else branch runs and the error is lost *)
+Example C04_example_guard_error_overwritten :
+  let p := [If [(GEval 1 (GFail (KUser 1)), [Mark 2])] (Some [Mark 3])] in
+  decode (mprog (mkVariant false false false false false true) 8 p) = Some ([EvMark 1; EvMark 3], Normal) /\
+  sprog 8 p = Some ([EvMark 1], Raised (EUser 1)).
 Proof. vm_compute. split; reflexivity. Qed.
 
 (* the hypotheses of the corollaries are satisfiable: an unhandled error through a finally *)
